@@ -41,6 +41,13 @@ static unsigned char *hc_unhex (const char *s, size_t *n)
   for (size_t i = 0; i < l; i++) b[i] = hc_hexval (s[2 * i]) * 16 + hc_hexval (s[2 * i + 1]);
   *n = l; return b;
 }
+/* like hc_unhex, but an empty string yields a pointer one past a 1-byte block, so that reading even one
+ * byte of an empty received buffer is an ASan report (malloc(0) is silently 1 byte under ASan); never free() it */
+static unsigned char *hc_unhex_tight (const char *s, size_t *n)
+{
+  if (!s || !strcmp (s, "-")) { *n = 0; return (unsigned char *) malloc (1) + 1; }
+  return hc_unhex (s, n);
+}
 static void hc_puthex (FILE *f, const unsigned char *b, size_t n)
 {
   if (n == 0) { fputc ('-', f); return; }
